@@ -128,7 +128,7 @@ def main():
         pts = list(range(1, L)) if L <= 60 or a.tier != 'quick' else sorted(set(list(range(1, 40)) + rnd.sample(range(40, L), 20)))
         segs = [()] + [(c,) for c in pts] + [tuple(range(1, L))]
         pairs = list(itertools.combinations(pts, 2))
-        segs += pairs if len(pairs) <= 600 else rnd.sample(pairs, 600 if a.tier == 'quick' else 5000)
+        segs += pairs if len(pairs) <= 600 else rnd.sample(pairs, min(len(pairs), 600 if a.tier == 'quick' else 5000))
         for cuts in segs:
             n += 1; distinct.add((hash(wire), cuts))
             got = run(wire, cuts, method)
